@@ -37,6 +37,7 @@ LEVEL_TEXT = (
     "on a subset of keys, wipe the directory, delete one file, edit the returned objects in place} on one directory in "
     "one process is executed; every run must return what a plain key->value map would (stored value for stored keys, "
     "fresh value otherwise) and compute exactly the missing keys."
+    ' Also: scan.steady_state through the cache, a user-supplied JSON naming / storage scheme, results that are legitimately None, key sets with one integer among floats, dotted strings, tuples of floats, and 25-40 keys; histories include runs over the tail / the reverse of the key list.'
 )
 LEVEL_NOTE = "fault model: process kill (everything handed to the OS persists, nothing after the kill happens); power-loss reordering of unsynced writes is out of scope; trusted: the shim's interception of io.open/os.* and its model of Python-level write buffering (validated against real SIGKILL runs)"
 RULE = (
